@@ -217,6 +217,14 @@ pub fn check_case(c: &XzCase, prop: &str, rep: &mut Report) -> bool {
             }
         }
     }
+    if c.accept && o.verdict == Verdict::Ok && lay.bytes.len() % 4 == 0 {
+        let mut sink = crate::io::FaultSink { short: [1usize, 3, 64][lay.bytes.len() / 4 % 3], ..Default::default() };
+        let mut rd = &lay.bytes[..];
+        let r = crate::io::catch(|| lzma_rs::xz_decompress(&mut rd, &mut sink).is_ok());
+        if !matches!(r, crate::io::Caught::Done(true)) || sink.data != content {
+            vs.push(format!("with a sink that accepts only part of each write the delivered bytes are not the blocks' contents ({} of {} bytes)", sink.data.len(), content.len()));
+        }
+    }
     match o.verdict {
         Verdict::Panic => vs.push(format!("panic: {}", o.msg)),
         Verdict::Ok => {
